@@ -10,7 +10,9 @@ Rel(b, kw, sign) ==
   LET b1 == AddMonthsClamped(b, sign * (12 * kw.year + 120 * kw.decade + kw.month)) IN
   IF b1 = None THEN None
   ELSE LET U(q, s) == (q[1] * s) \div q[2]
-           R(q, s) == (((q[1] * s) % q[2]) * 1000000) \div q[2]
+           \* floor(rem * 10^6 / den) for 0 <= rem < den <= 10^6, without leaving TLC's 32-bit integers
+           Scale(rem, den) == LET a == rem * 1000 IN (a \div den) * 1000 + ((a % den) * 1000) \div den
+           R(q, s) == Scale((q[1] * s) % q[2], q[2])
            secs == U(kw.hour, 3600) + U(kw.minute, 60) + U(kw.second, 1)
            us   == R(kw.hour, 3600) + R(kw.minute, 60) + R(kw.second, 1)
        IN AddDSU(b1, sign * (7 * kw.week + kw.day), sign * secs, sign * us)
